@@ -386,9 +386,9 @@ export class TypeGen {
       [3, () => A.util("Omit", [target, r.chance(0.85) ? keySubset() : A.lit("not_a_key")])],
       [this.f.keyofIndex ? 2 : 0, () => ({ k: "keyof", t: A.ref(name) })],
       [this.f.keyofIndex ? 2 : 0, () => ({ k: "index", obj: A.ref(name), idx: keySubset() })],
-      [this.f.mapped ? 2 : 0, () => ({ k: "mapped", param: "K", constraint: { k: "keyof", t: A.ref(name) }, val: r.chance(0.6) ? { k: "index", obj: A.ref(name), idx: A.ref("K") } : this.scalarLeaf(), opt: r.chance(0.3), ro: r.chance(0.2) })],
-      [this.f.mapped ? 1 : 0, () => ({ k: "mapped", param: "P", constraint: A.union([A.lit("p"), A.lit("q")]), val: r.chance(0.4) ? A.ref("P") : this.type(depth - 1), opt: r.chance(0.3), ro: false })],
-      [this.f.mapped && this.f.records ? 0.7 : 0, () => ({ k: "mapped", param: "P", constraint: A.kw("string"), val: this.type(depth - 1), opt: r.chance(0.3), ro: false })],
+      [this.f.mapped ? 2 : 0, () => ({ k: "mapped", param: "K", constraint: { k: "keyof", t: A.ref(name) }, val: r.chance(0.6) ? { k: "index", obj: A.ref(name), idx: A.ref("K") } : this.scalarLeaf(), opt: r.chance(0.3), ro: r.chance(0.2), plus: r.chance(0.3) })],
+      [this.f.mapped ? 1 : 0, () => ({ k: "mapped", param: "P", constraint: A.union([A.lit("p"), A.lit("q")]), val: r.chance(0.4) ? A.ref("P") : this.type(depth - 1), opt: r.chance(0.3), ro: false, plus: r.chance(0.3) })],
+      [this.f.mapped && this.f.records ? 0.7 : 0, () => ({ k: "mapped", param: "P", constraint: A.kw("string"), val: this.type(depth - 1), opt: r.chance(0.3), ro: false, plus: r.chance(0.3) })],
     ])();
   }
   condType(depth) {
@@ -607,6 +607,19 @@ export class TypeGen {
             },
           ],
         ])();
+        // a generic interface that extends another generic with (a transformation of) its own parameter
+        const parents = this.decls.filter((d) => d.params && d.params.length === 1 && ((d.d === "iface" && !(d.ext || []).length) || (d.d === "alias" && d.t.k === "obj")));
+        if (parents.length && r.chance(0.25)) {
+          const parent = r.pick(parents);
+          const taken = new Set((parent.d === "iface" ? parent.props : parent.t.props).map((p) => p.name));
+          const arg = r.wpick([
+            [3, () => A.ref("X")],
+            [2, () => A.arr(A.ref("X"))],
+            [1, () => A.union([A.ref("X"), A.kw("null")])],
+          ])();
+          const own = [A.prop("own_x", A.ref("X"), r.chance(0.3)), A.prop("own_n", this.scalarLeaf(), r.chance(0.3))].filter((q) => !taken.has(q.name));
+          return tryAdd({ d: "iface", name, params: ["X"], ext: [A.ref(parent.name, [arg])], props: own, index: null, doc });
+        }
         if (r.chance(0.4) && body.k === "obj") return tryAdd({ d: "iface", name, params, ext: [], props: body.props, index: null, doc });
         return tryAdd({ d: "alias", name, params, t: body, doc });
       }
